@@ -196,7 +196,9 @@ CHECKS = {
              "if-chain of FFIManager::callFunction on every run: ffiTable_rows_ok, ffiTable_no_overlap. Tie: translator + "
              "an echo library compiled by the check: every supported signature x boundary values x every argument position, "
              "qualified and unqualified calls, 64-bit results; unsupported signatures must be reported, exit 1, and must not "
-             "enter the native function (marker files). Added later: foreign calls nested in arguments and a second library with functions of the same names.",
+             "enter the native function (marker files). Added later: foreign calls nested in arguments and a second library with functions of the same names; "
+             "out-of-range marshalling: toInt32_congr / toInt32_unique / toInt32_idem (the value an int parameter receives is the unique 32-bit value "
+             "congruent mod 2^32), tied by `wrap` cases that pass long values to int parameters in every position.",
         note="Trusted: translator tools/translate/ffi.py, gcc, the SysV ABI, dlopen. Double equality is evaluated by the "
              "interpreter. Listed finding: void functions with unsupported parameters are silently skipped.",
         technique="Lean 4 proof (table laws) + translator-regenerated table with decide obligations + exhaustive echo suite",
